@@ -63,8 +63,36 @@ func buildRegistry() {
 	add(&GroupInfo{Name: "p256", Family: "p256", G: p, Order: ordP256, PrimeOrder: true,
 		HasBase: true, HasPick: true, HasEmbed: true, MulNil: true})
 	qr := p256.NewBlakeSHA256QR512()
-	add(&GroupInfo{Name: "qr512", Family: "qr512", G: qr, Order: libOrder(qr), PrimeOrder: true,
-		HasBase: true, HasPick: true, HasEmbed: true, MulNil: true})
+	qrq := libOrder(qr)
+	add(&GroupInfo{Name: "qr512", Family: "qr512", G: qr, Order: qrq, PrimeOrder: true,
+		HasBase: true, HasPick: true, HasEmbed: true, MulNil: true, Modulus: new(big.Int).Add(new(big.Int).Lsh(qrq, 1), big1)})
+	// a residue group with cofactor R > 2 (ResidueGroup.SetParams is public API): Q = the P-256 group
+	// order, R the smallest even number >= 4 with P = Q*R+1 prime, G = h^R for the smallest h giving
+	// G != 1.  With R > 2 "is a quadratic residue" and "is in the order-Q subgroup" differ.
+	{
+		Q := new(big.Int).Set(ordP256)
+		R, P := big.NewInt(4), new(big.Int)
+		for {
+			P.Add(new(big.Int).Mul(Q, R), big1)
+			if P.ProbablyPrime(32) {
+				break
+			}
+			R.Add(R, big.NewInt(2))
+		}
+		G := new(big.Int)
+		for h := int64(2); ; h++ {
+			if G.Exp(big.NewInt(h), R, P); G.Cmp(big1) != 0 {
+				break
+			}
+		}
+		rg := new(p256.ResidueGroup)
+		rg.SetParams(P, Q, R, G)
+		if !rg.Valid() {
+			panic("harness: cofactor residue group parameters are not valid")
+		}
+		add(&GroupInfo{Name: "qr.cofactor", Family: "qr512", G: rg, Order: Q, PrimeOrder: true,
+			HasBase: true, HasPick: true, HasEmbed: true, MulNil: true, Modulus: P})
+	}
 
 	hashOf := func(g kyber.Group) func(msg, dst []byte) kyber.Point {
 		return func(msg, _ []byte) kyber.Point { return g.Point().(kyber.HashablePoint).Hash(msg) }
